@@ -280,6 +280,16 @@ impl System for Sys {
     }
 }
 
+/// rebuild a configuration from its evidence name "slots=N trains=[(a, b), ...] evictor=bool"
+pub fn sys_from_name(name: &str) -> Option<Sys> {
+    let slots: usize = name.strip_prefix("slots=")?.split(' ').next()?.parse().ok()?;
+    let tr = &name[name.find('[')? + 1..name.find(']')?];
+    let nums: Vec<usize> = tr.split(|c: char| !c.is_ascii_digit()).filter(|x| !x.is_empty()).filter_map(|x| x.parse().ok()).collect();
+    let shapes: Vec<(usize, usize)> = nums.chunks(2).filter(|c| c.len() == 2).map(|c| (c[0], c[1])).collect();
+    let ev = name.ends_with("evictor=true");
+    Some(Sys::new(slots, &shapes, ev))
+}
+
 pub fn run(tier: Tier) -> i32 {
     let rep = Report::new("C07", tier);
     rep.set_rule("for each configuration (trains = (PDU length, fragments) on fragment ids 0..k-1, memory of n slots) breadth-first search to closure over advance(i) / restart(i) / stray(j) with state = (next index per train, real receiver snapshot); strays: intermediate/end of ids aliasing each train's slot (id+n, id+2n), of an id mapping to an empty slot, duplicate end of an idle train, complete packets, padding, oversize aliasing intermediate, (one configuration) a foreign first fragment claiming an aliasing slot; oracle: delivery exactly at the own end fragment with own bytes/metadata, no other train's reassembly data altered by any op, strays leave the memory unchanged; distinct = (op kind, outcome); number of distinct receiver memories per index vector reported");
